@@ -35,7 +35,9 @@ cm_unit = KaniUnit(
         H("c07_traversal_cost_mul", "bounded", "CostModel::traversal_cost / cost_estimate (Mul): floored product, > 0 / >= 0, finite", bound="2 features, leaf rates, magnitudes <= 1e6, finite product", timeout=1500),
         H("c07_short_state_is_err", "bounded", "state vector shorter than the model => Err, no panic", bound="2 features"),
     ])
-vm_unit = VerusUnit('c07_costmodel', 'c07_costmodel', rlimit=30)
+tw = KaniUnit("c07_turn_wit", CORE, modules=[dict(file=CORE + "/src/algorithm/search/search_instance.rs", src="world.rs"), dict(file=CORE + "/src/algorithm/search/edge_traversal.rs", src="c07_turn_surcharge_wit.rs")], harnesses=[])
+tw.native_witnesses = ["c07_wit_turn_surcharge_is_part_of_the_charged_cost"]
+vm_unit = VerusUnit('c07_costmodel', 'c07_costmodel', rlimit=30, paired_kani=(tw, []))
 rw = KaniUnit("c07_rate_wit", CORE, modules=[dict(file=CORE + "/src/model/cost/vehicle/vehicle_cost_rate.rs", src="c07_rate_wit.rs")], harnesses=[])
 rw.native_witnesses = ["c07_wit_combined_rate_applies_members_in_order"]
 rate = VerusUnit("c07_rate", "c07_rate", rlimit=30, paired_kani=(rw, []))
@@ -44,7 +46,7 @@ ow.native_witnesses = ["c07_wit_cost_is_weight_times_rated_state_change"]
 co = VerusUnit("c07_cost_ops", "c07_cost_ops", rlimit=30, paired_kani=(ow, []))
 cb = VerusUnit("c02_cost_build", "c02_cost_build", rlimit=30)
 nr = VerusUnit("c07_network_rate", "c07_network_rate", rlimit=30, paired_kani=(ow, []))
-UNITS = [cost_unit, vm_unit, co, cb, rate, nr, rw, ow]
+UNITS = [cost_unit, vm_unit, co, cb, rate, nr, rw, ow, tw]
 EXPLANATION = ("contracts on the cost floor / clip functions (all f64, Kani) and on the cost model and the per-edge cost split (Verus, reals): total = floor(vehicle + network) > 0, estimate = clip(vehicle) >= 0, access + traversal share = the floored total; "
                "WHAT the aggregated costs are (unit c07_cost_ops, Verus on the verbatim cost_ops::calculate_vehicle_costs / calculate_network_traversal_costs / calculate_network_access_costs and CostAggregation::agg_iter, any number of features): "
                "the aggregate -- SUM, or product under mul, nothing for no feature -- over the features in order of weight x RATED CHANGE OF STATE in the feature's slot (vehicle), weight x the surcharge its network rate lists for the edge (traversal), "
